@@ -10,16 +10,17 @@ import (
 
 // AnteProfile generates signed-transaction histories for the ante engine.
 type anteG struct {
-	r       *rng.R
-	ops     []string
-	height  int64
-	vp      uint64
-	tenants []*tenant
-	feeder  map[int]string // current feeder per validator
-	former  map[int]string
-	grants  [][3]string
-	prev    map[int]*commit
-	fee     string
+	r         *rng.R
+	ops       []string
+	height    int64
+	vp        uint64
+	tenants   []*tenant
+	feeder    map[int]string // current feeder per validator
+	former    map[int]string
+	grants    [][3]string
+	prev      map[int]*commit
+	fee       string
+	delegated map[string]bool
 }
 
 const genericFee = "10000000000000000:asetl"
@@ -217,6 +218,9 @@ func (g *anteG) oracleMsg(v int, feeder string) string {
 		return fmt.Sprintf("vote(%s~%s~%s~%d~%s)", feeder, vt, e(c.salt), c.round, c.vd)
 	}
 	nf := rng.Pick(r, accs)
+	if _, delegated := g.feeder[v]; delegated && r.P(1, 3) {
+		nf = fmt.Sprintf("o%d", v) // the validator takes the delegation back
+	}
 	return fmt.Sprintf("consent(%s~%s)", vt, nf)
 }
 
@@ -281,7 +285,11 @@ func (g *anteG) oracleTx() {
 
 func (g *anteG) sendMsg() string {
 	r := g.r
-	return fmt.Sprintf("send(%s~%s~%d~=uusdc)", rng.Pick(r, accs[:6]), rng.Pick(r, accs), 1+r.N(50))
+	to := rng.Pick(r, accs)
+	if r.P(1, 6) {
+		to = rng.Pick(r, []string{"mdistr", "mpool", "mcollector"}) // module accounts may not receive funds
+	}
+	return fmt.Sprintf("send(%s~%s~%d~=uusdc)", rng.Pick(r, accs[:6]), to, 1+r.N(50))
 }
 
 func (g *anteG) mixedTx() {
@@ -370,7 +378,19 @@ func (g *anteG) otherTx() {
 	case 2:
 		g.tx("auto", "-", genericFee, 300000, fmt.Sprintf("grant(%s~%s~ethtx)", rng.Pick(r, accs[:4]), rng.Pick(r, accs[4:])))
 	case 3:
-		g.tx("auto", "-", genericFee, 400000, fmt.Sprintf("delegate(%s~v%d~1000)", rng.Pick(r, accs[:5]), r.N(world.NVal)))
+		// one delegation per (delegator, validator): a second one withdraws the first one's staking rewards, which is the SDK's F1
+		// distribution at work and outside the model
+		d, v := rng.Pick(r, accs[:5]), r.N(world.NVal)
+		k := fmt.Sprintf("%s/%d", d, v)
+		if g.delegated == nil {
+			g.delegated = map[string]bool{}
+		}
+		if g.delegated[k] {
+			g.tx("auto", "-", genericFee, 300000, g.sendMsg())
+			return
+		}
+		g.delegated[k] = true
+		g.tx("auto", "-", genericFee, 400000, fmt.Sprintf("delegate(%s~v%d~1000)", d, v))
 	case 4:
 		// wrong signer on an otherwise fine transaction
 		g.tx(rng.Pick(r, accs), "-", genericFee, 300000, g.sendMsg())
